@@ -28,6 +28,9 @@ type crashCase struct {
 	SnapRenamed map[string]any   `json:"snap_renamed"`
 	SnapDone    map[string]any   `json:"snap_done"`
 	RwReplaced  map[string]any   `json:"rw_replaced"`
+	// Mid: admissible outcomes of a crash INSIDE the last operation (between its journal write, its
+	// file-system steps and its memory update): what the state before it or after it may recover to
+	Mid []map[string]any `json:"mid"`
 	// FlushAfter: the model treats the first FlushAfter operations (the seeded prefix) as durable
 	FlushAfter int `json:"flush_after"`
 }
@@ -237,10 +240,26 @@ func runCrashCase(p eng.Profile, c crashCase, tornAll bool, res *crashOut) {
 		lastOp, _ = c.Ops[len(c.Ops)-1]["op"].(string)
 	}
 	points := map[string]string{}
+	var midPoints []string
 	switch lastOp {
-	case "SaveSnapshot", "RewriteAOF", "VCompress", "Reopen", "VDeleteCut", "":
+	case "VDeleteIndex":
+		// the arena directory is removed inside the call: image after the removal, the VDROP possibly unflushed
+		points["op.journaled"] = img("journaled")
+		midPoints = []string{"drop.mem"}
+	case "VCompress":
+		// rebuild (arena renamed away, new arena filled, index swapped) followed by the snapshot that makes it durable
+		midPoints = []string{"cmp.closed", "cmp.renamed", "cmp.filled", "cmp.swapped", "snap.tmp_written", "snap.renamed", "snap.truncated"}
+	case "VImportCommit":
+		midPoints = []string{"snap.tmp_written", "snap.renamed", "snap.truncated"}
+	case "SaveSnapshot", "RewriteAOF", "Reopen", "VDeleteCut", "":
 	default:
 		points["op.journaled"] = img("journaled")
+	}
+	if len(c.Mid) == 0 {
+		midPoints = nil
+	}
+	for _, mp := range midPoints {
+		points[mp] = img("mid-" + mp)
 	}
 	live, err := execHistory(p, base, c.Ops, points, c.FlushAfter)
 	if err != nil {
@@ -253,6 +272,9 @@ func runCrashCase(p eng.Profile, c crashCase, tornAll bool, res *crashOut) {
 		checkImage(live, img("journaled"), c.ID, "op.journaled", c.Between, res)
 	}
 	checkImage(live, img("now"), c.ID, "between", c.Between, res)
+	for _, mp := range midPoints {
+		checkImage(live, img("mid-"+mp), c.ID, lastOp+":"+mp, c.Mid, res)
+	}
 
 	// --- B. torn tail: the log ends inside its last frame ------------------------------------------
 	if len(c.Torn) == 1 {
